@@ -400,6 +400,11 @@ class SchemaBuilder(
                         types = [types]
                     if "null" not in types:
                         result = JsonSchema({**result, "type": [*types, "null"]})
+                        # enum/const apply whatever the type is
+                        if "enum" in result:
+                            result["enum"] = [*result["enum"], None]
+                        elif "const" in result:
+                            result["enum"] = [result.pop("const"), None]
                     return result
             else:
                 raise NotImplementedError
